@@ -196,3 +196,40 @@ def nonterminating_signature(grammar, start="<start>"):
         if has_nullable_rep(grammar.rules[nt]):
             return "nullable-repetition-body"
     return None
+
+
+def left_recursive(grammar, start="<start>"):
+    """is some nonterminal reachable from the start symbol left-recursive (A =>+ A ...), skipping empty-deriving prefixes?"""
+    from fandango.language.grammar.nodes.alternative import Alternative
+    from fandango.language.grammar.nodes.concatenation import Concatenation
+    from fandango.language.grammar.nodes.repetition import Repetition
+    from fandango.language.grammar.nodes.non_terminal import NonTerminalNode
+    nul, node_nullable = nullable_map(grammar)
+
+    def firsts(n):
+        if isinstance(n, NonTerminalNode):
+            return {n.symbol}
+        if isinstance(n, Alternative):
+            return set().union(*[firsts(a) for a in n.alternatives])
+        if isinstance(n, Concatenation):
+            out = set()
+            for a in n.nodes:
+                out |= firsts(a)
+                if not node_nullable(a):
+                    break
+            return out
+        if isinstance(n, Repetition):
+            return firsts(n.node)
+        return set()
+    f = {nt: firsts(node) for nt, node in grammar.rules.items()}
+    for nt in f:
+        seen, todo = set(), list(f[nt])
+        while todo:
+            x = todo.pop()
+            if x == nt:
+                return True
+            if x in seen or x not in f:
+                continue
+            seen.add(x)
+            todo.extend(f[x])
+    return False
